@@ -21,6 +21,7 @@ type SessionResult struct {
 	Model  *AP // the harness' own reading of the recipe
 	Snap   *AP // snapshot of the real policy after the last builder call
 	Real   *bm.Policy
+	B      *Builder // kept so that the policy can be extended after it has been used
 	Calls  []*CallResult
 	// BuildDiffs lists builder calls after which snapshot and model differ.
 	BuildDiffs []string
@@ -73,8 +74,31 @@ func (tw *TraceWriter) BuildSession(r Recipe) *SessionResult {
 		tw.emit(Ev{"ev": "build", "pid": 1, "call": c, "snap": snap, "others": []interface{}{}}, LineInfo{si, 0, -1})
 	}
 	s.Real = b.P
+	s.B = b
 	s.Snap = SnapshotAP(b.P)
 	return s
+}
+
+// Extend applies one more builder call to a session's policy (which may already have sanitised documents) and logs it.
+func (tw *TraceWriter) Extend(s *SessionResult, c Call) {
+	si := -1
+	for i, x := range tw.Sessions {
+		if x == s {
+			si = i
+		}
+	}
+	c.norm()
+	tw.Facts.AddRecipe(Recipe{c})
+	s.B.Apply(c)
+	s.Model.Apply(c)
+	s.Recipe = append(append(Recipe{}, s.Recipe...), c)
+	snap := SnapshotAP(s.B.P)
+	if d := APDiff(s.Model, snap); len(d) > 0 {
+		s.BuildDiffs = append(s.BuildDiffs, c.M+": "+d[0])
+	}
+	tw.emit(Ev{"ev": "build", "pid": 1, "call": c, "snap": snap, "others": []interface{}{}}, LineInfo{si, 0, -1})
+	s.Real = s.B.P
+	s.Snap = snap
 }
 
 // Sanitize runs one recorded call on the session's policy and logs its events.
